@@ -161,6 +161,19 @@ def run_scenario(spec, n):
                 cur = atime.over_time(cur, fd, vars=vl, estimates=list(e),
                                       verbose=False, **kw)
         tables[mode] = cur
+    if est and len(names) >= 2:
+        # estimates in the first call, none in the second, then a call without
+        # variables that only asks for the estimates: every scalar column must
+        # end up with every estimate, as in the single call
+        h = len(names) // 2
+        cur = {k: list(v) for k, v in data.items()}
+        with common.Quiet():
+            cur = atime.over_time(cur, fd, vars=var_list(names[:h]), estimates=list(est),
+                                  verbose=False, **kw)
+            cur = atime.over_time(cur, fd, vars=var_list(names[h:]), estimates=[],
+                                  verbose=False, **kw)
+            cur = atime.over_time(cur, fd, vars=[], estimates=list(est), verbose=False, **kw)
+        tables['catchup'] = cur
     # one more call on the finished table: ONE dict holding an existing column
     # name (under another function) and a brand-new name
     exist = spec['names'][0]
@@ -249,10 +262,13 @@ def diffs(spec, n):
                         hard.append((f"estimate column wrong ({en})", {"column": col, "row": j,
                                                                       "got": float(got), "want": float(want)}))
                         break
-    if 'split' in tables:
-        A, B = tables['single'], tables['split']
+    for smode in ('split', 'catchup'):
+        if smode not in tables:
+            continue
+        A, B = tables['single'], tables[smode]
         if set(A.keys()) != set(B.keys()):
-            hard.append(("split calls give a table with different columns",
+            hard.append((("split calls give" if smode == 'split' else "estimates caught up later give")
+                         + " a table with different columns",
                          {"only_single": sorted(set(A) - set(B))[:6],
                           "only_split": sorted(set(B) - set(A))[:6]}))
         else:
@@ -261,7 +277,7 @@ def diffs(spec, n):
                 if a.shape != b.shape:
                     hard.append(("split calls give a column of different shape", {"column": key}))
                 elif a.dtype.kind in 'fiuc':
-                    out.append((f"{key}: single call vs split calls", float(np.abs(a - b).max()),
+                    out.append((f"{key}: single call vs {smode} calls", float(np.abs(a - b).max()),
                                 float(np.abs(a).max())))
     return out, hard
 
